@@ -5,8 +5,17 @@ from __future__ import annotations
 ATOMS = {}  # letter -> real alphabet item (set by a check that wants non-trivial items, e.g. words or tuples)
 
 
-def to_expr(t):
-    """pattern tree (mc.refs.regex) -> real codelimit Expression"""
+def to_expr(t, memo=None):
+    """pattern tree (mc.refs.regex) -> real codelimit Expression. With a memo dict, equal sub-trees become the SAME Python object
+    (the way a language definition reuses one operand list in two places of its pattern)"""
+    if memo is not None and t[0] in ("cat", "alt", "opt", "star", "plus"):
+        if t not in memo:
+            memo[t] = _to_expr(t, memo)
+        return memo[t]
+    return _to_expr(t, memo)
+
+
+def _to_expr(t, memo):
     from codelimit.common.gsm.operator.OneOrMore import OneOrMore
     from codelimit.common.gsm.operator.Optional import Optional
     from codelimit.common.gsm.operator.Union import Union
@@ -16,20 +25,20 @@ def to_expr(t):
     if op == "cat":
         items = []
         for child in t[1:]:
-            e = to_expr(child)
+            e = to_expr(child, memo)
             if child[0] == "cat":
                 items.extend(e)
             else:
                 items.append(e)
         return items
     if op == "alt":
-        return Union(to_expr(t[1]), to_expr(t[2]))
+        return Union(to_expr(t[1], memo), to_expr(t[2], memo))
     if op == "opt":
-        return Optional(to_expr(t[1]))
+        return Optional(to_expr(t[1], memo))
     if op == "star":
-        return ZeroOrMore(to_expr(t[1]))
+        return ZeroOrMore(to_expr(t[1], memo))
     if op == "plus":
-        return OneOrMore(to_expr(t[1]))
+        return OneOrMore(to_expr(t[1], memo))
     return ATOMS.get(op, op)
 
 
@@ -37,6 +46,6 @@ def real_seq(seq):
     return [ATOMS.get(ch, ch) for ch in seq]
 
 
-def top_expr(t):
-    e = to_expr(t)
+def top_expr(t, shared=False):
+    e = to_expr(t, {} if shared else None)
     return e if isinstance(e, list) else [e]
